@@ -1687,6 +1687,12 @@ fn c05_query(r: &mut Rng, o: &[P2]) -> (P2, f64) {
     (q, h)
 }
 
+/// coordinates that differ from the frame's origin only by trigonometric noise (< 1e-12) are set to the origin's
+fn snap_noise(f: &Frame, q: Point3D) -> Point3D {
+    let s = |c: Float, o: Float| if (c - o).abs() < 1e-12 { o } else { c };
+    Point3D::new(s(q.x, f.o.x), s(q.y, f.o.y), s(q.z, f.o.z))
+}
+
 fn place_q(f: &Frame, q: (P2, f64)) -> Point3D {
     if q.1 == 0. {
         f.place(q.0)
@@ -1698,6 +1704,36 @@ fn place_q(f: &Frame, q: (P2, f64)) -> Point3D {
 pub fn c05(r: &mut Rng, out: &mut Out, n: usize) {
     let mut emitted = 0;
     while emitted < n {
+        if r.below(12) == 0 {
+            // an outline with an edge ON an in-plane axis of a noisy right-angle frame at the origin (the noise of that edge
+            // along one world axis is not absorbed by any offset), queried on the prolongation of that edge at clean coordinates
+            let f = noise_frame_at_origin(r);
+            let (w, h) = (4. + 20. * r.unit(), 1. + 4. * r.unit());
+            let x0 = -w * r.pick(&[0., 0.5, 1.]);
+            let o: Vec<P2> = if r.bool() {
+                vec![(x0, 0.), (x0 + w, 0.), (x0 + w, h), (x0, h)]
+            } else {
+                vec![(x0, 0.), (x0 + w, 0.), (x0 + w, h), (x0 + 0.5 * w, h), (x0 + 0.5 * w, 0.5 * h), (x0, 0.5 * h)]
+            };
+            let o = if r.bool() { o } else { let mut t = o.clone(); t.reverse(); t };
+            let k = r.below(o.len());
+            let o: Vec<P2> = o.iter().cycle().skip(k).take(o.len()).cloned().collect();
+            let pts = placed(&f, &o);
+            let built = catch(|| build_raw(&pts));
+            for _ in 0..4 {
+                let t = r.pick(&[-1., -0.5, -0.1, -0.01, 0.25, 0.5, 1.01, 1.1, 1.5, 2.]);
+                let q2 = (x0 + w * t, 0.);
+                let q = snap_noise(&f, f.place(q2));
+                let res = match &built {
+                    Err(_) => "panic".to_string(),
+                    Ok(None) => "build-err".into(),
+                    Ok(Some(l)) => res_str(catch(|| l.test_point(q)), |b| hb(*b).to_string()),
+                };
+                out.case(&format!("loop.tp {} {}", hpts(&pts), hp(q)), &res);
+                emitted += 1;
+            }
+            continue;
+        }
         let f = any_frame(r);
         match r.below(10) {
             0 | 1 | 2 | 3 | 4 => {
@@ -1706,6 +1742,9 @@ pub fn c05(r: &mut Rng, out: &mut Out, n: usize) {
                 let built = catch(|| build_raw(&pts));
                 for _ in 0..(2 + r.below(8)) {
                     let q = place_q(&f, c05_query(r, &o));
+                    // a loop in a plane that carries 1e-16-level trigonometric noise, queried at "clean" coordinates:
+                    // the noise of the query is snapped away (half of the time)
+                    let q = if f.kind == "right-angle-noise" && r.bool() { snap_noise(&f, q) } else { q };
                     let res = match &built {
                         Err(_) => "panic".to_string(),
                         Ok(None) => "build-err".into(),
@@ -1882,6 +1921,8 @@ fn poly_state(pg: &Polygon3D) -> String {
 pub fn c11(r: &mut Rng, out: &mut Out, n: usize) {
     for case in 0..n {
         let f = any_frame(r);
+        // one case in six: a small polygon (a few decimetres across)
+        let f = if r.below(6) == 0 { f.scaled(r.pick(&[0.03, 0.05, 0.1])) } else { f };
         let (o, c, rad, ext) = outline_with_disc(r);
         let outer = placed(&f, &o);
         if case % 8 == 7 {
